@@ -505,8 +505,10 @@ class Ctx:
             "wall_s": round(time.time() - self.t0, 2),
             "violations": len(seen),
         }
-        os.makedirs(os.path.join(VERIF, "evidence"), exist_ok=True)
-        json.dump(ev, open(os.path.join(VERIF, "evidence", self.id + ".json"), "w"), indent=1, default=str)
+        # evidence of a run against a scratch tree (VERIF_REPO) must never replace the evidence of /repo itself
+        evdir = os.path.join(VERIF, "evidence") if not REPO_TAG else os.path.join(CACHE, "evidence" + REPO_TAG)
+        os.makedirs(evdir, exist_ok=True)
+        json.dump(ev, open(os.path.join(evdir, self.id + ".json"), "w"), indent=1, default=str)
         return 1 if seen else 0
 
     def known_covers_obligations(self):
